@@ -60,4 +60,6 @@ MUTANTS = [
     m("c10-product-array-missing-transpose", "R1", "        _array = rect_matrix @ (pos_def_matrix @ rect_matrix.T.array)", "        _array = rect_matrix @ (pos_def_matrix @ rect_matrix.array)"),
     m("c10-product-array-inner-inverted", "R1", "        _array = rect_matrix @ (pos_def_matrix @ rect_matrix.T.array)", "        _array = rect_matrix @ (pos_def_matrix.inv @ rect_matrix.T.array)"),
     m("c10-twin-product-array-regrouped", None, "        _array = rect_matrix @ (pos_def_matrix @ rect_matrix.T.array)", "        _array = (rect_matrix @ pos_def_matrix) @ rect_matrix.T.array", twin=True),
+    m("c10-sqrt-from-inverse-cache", "R9", "        if self._sqrt is None:\n            self._sqrt = self._construct_sqrt()\n", "        if self._sqrt is None:\n            inv = self._inv\n            if isinstance(inv, PositiveDefiniteMatrix) and inv._sqrt is not None:\n                self._sqrt = inv._sqrt.inv\n            else:\n                self._sqrt = self._construct_sqrt()\n", key="slot-source"),
+    m("c10-inv-returns-fresh", "R9", "        if self._inv is None:\n            self._inv = self._construct_inv()\n        return self._inv", "        if self._inv is None:\n            self._inv = self._construct_inv()\n        return self._construct_inv()", key="returns"),
 ]
